@@ -1,13 +1,13 @@
 (** C09 - executable model of the transformation machinery (no proofs here).
 
-    Transcribed from /repo/src/classy_blocks (tree with the fixes C09-1 .. C09-7 applied):
+    Transcribed from /repo/src/classy_blocks (tree with the fixes C09-1 .. C09-9 applied):
       util/functions.py      unit_vector, rotation_matrix, rotate, scale, mirror_matrix, mirror,
                              divide_arc/arc_mid, polyline_length
       construct/point.py     Point.translate/rotate/scale/mirror
       construct/array.py     Array.translate/rotate/scale/mirror   (row-wise)
       construct/edges.py     Angle.translate/rotate/scale/mirror/reverse   (direction quantity)
-      base/element.py        ElementBase.translate/rotate/scale/mirror/transform (delegation to parts)
-      construct/operations/operation.py   Operation.mirror / invert
+      base/element.py        ElementBase.translate/rotate/scale/mirror (delegation to parts), transform (= the method calls)
+      construct/operations/operation.py   Operation.mirror / invert / transform (a listed Mirror does not invert)
       items/edges/arcs/angle.py  arc_from_theta;  items/edges/arcs/origin.py arc_from_origin (equidistant branch)
 
     [scipy.linalg.expm] of a skew matrix is modelled by Rodrigues' formula (trusted, validated numerically by
@@ -185,22 +185,20 @@ Fixpoint swap_tree (n : node) : node :=
 Definition method_tree (k : tkind) (n : node) : node :=
   match k with KMirror => swap_tree n | _ => n end.
 
-(** entity.transform([t]) : the *parts* of the entity receive the method call; the entity's own overrides
-    (Operation.mirror, Angle.translate/rotate/scale/mirror) are not used at the top level: the only part of
-    an Angle is its axis vector, an ordinary Point *)
-Definition parts_of (n : node) : list node :=
-  match n with
-  | NGroup l => l
-  | NOper b t s => b :: t :: s
-  | NAngle i => [NPoint i]
-  | x => [x]
-  end.
+(** entity.transform([t]) (tree with fix C09-9): every list item is the respective method call on the entity itself,
+    so the entity's own overrides (Angle.translate/rotate/scale/mirror, CircleCurve.mirror, SplineRound.scale, the
+    mirror of an operation inside a shape) are used exactly as by a method call.  One exception is pinned by the
+    library's tests: Operation.transform([... Mirror ...]) on the operation itself mirrors its parts but does not
+    invert it (no face swap, no side-edge reversal); operations met further down still use Operation.mirror. *)
 Definition list_visits (k : tkind) (n : node) : list visit :=
-  (fix go (l : list node) := match l with [] => [] | x :: r => method_visits k x ++ go r end) (parts_of n).
+  match n with
+  | NOper _ _ _ => visits k n
+  | x => method_visits k x
+  end.
 Definition list_tree (k : tkind) (n : node) : node :=
   match n with
-  | NGroup l => NGroup (map (method_tree k) l)
-  | x => x
+  | NOper _ _ _ => n
+  | x => method_tree k x
   end.
 
 (** a sequence of method calls (meth = true) or one transformation list (meth = false) *)
